@@ -110,6 +110,19 @@ def prop_limit(case, rec):
         ns = list(range(1, total + 3))
     else:
         ns = sorted(n for n in bounds | set(case.get('extra_ns', [])) if 1 <= n <= total + 2)[:120]
+    if not case.get('ns') and not case.get('threshold_ns') and total <= 5000:
+        # status and help requests are answered on stderr: the same run with [ENTER] / 'h' pressed inside a Markov level, inside an
+        # ordinary pre-terminal and at the first and last guess must leave stdout unchanged (C09-r17: a new status line for Markov
+        # levels printed with file=None)
+        spots = [1, total] + sorted(markov_inside)[:1] + sorted(markov_inside)[-1:] + sorted(inside - markov_inside)[:1]
+        evs = [[['guess', j], key] for j, key in zip(sorted(set(spots)), ['', 'h', '', '', 'h'])]
+        sub = dict(case, status_events=evs)
+        r = guard(sub, session.run_main, root, argv_for(flags), events=[(tuple(p_), e) for p_, e in evs])
+        rec.case({'status_events': evs, 'total': total, 'flags': flags}, bool(markov_inside), ['status_requests'] + (['status_inside_markov'] if markov_inside else []),
+                 key=[m, flags, 'status'])
+        if r.lines != u.lines:
+            bad = [x for x in r.lines if x not in set(u.lines)][:3]
+            raise Violation('stdout_not_guesses', f'status / help requests at {evs} changed stdout: {len(r.lines)} lines instead of {total}; lines that are not guesses: {bad}', sub)
     for n in ns:
         sub = dict(case, ns=[n])
         r = guard(sub, session.run_main, root, argv_for(flags) + ['-n', str(n)])
